@@ -106,6 +106,24 @@ CHECKS = {
          'with the product of exponentials of [F B;0 0]dt built from system_matrices within bound(neglected terms)+4*discretisation change+floor. A sign or factor error in any block is 10^2..10^8 x its tolerance in the stratum built for it. Exploration.',
     note='Neglected-term forms and constants calibrated on the unchanged tree (1152 cases, margin >= 2..5x, recorded in the module); propagate_errors clause compares against the same perturbed integrations.',
     design='DESIGN.md section 4, C04'),
+ 'C11': dict(
+    technique='property-based reference-model testing: own one-shot (non-recursive) Gauss-Markov solution assembled from the public model pieces with own discretisation and interpolation',
+    text='Generated runs over the C04 domain x random enable masks of both sensor models x sigmas over 4 decades x 1..3 measurement sensors (on/off grid, clustered, lever arms) x time steps 0.2..5 s x both modes: compensated trajectory, trajectory_sd, sensor estimates and sd and '
+         'every normalised innovation must equal the joint-Gaussian conditioning over the whole run within 1e-6 sigma (measured agreement 5e-11). Exploration.',
+    note='The time grid is read from the filter output (scheduling is C10); cond(Cov Z) > 1e10 counted inconclusive; the oracle calls public system_matrices / EstimationModel attributes / compute_matrices by design.',
+    design='DESIGN.md section 4 and 4b, C11'),
+ 'C12': dict(
+    technique='property-based differential/metamorphic testing: bit-identity with plain integration; error-scale ladder for first-order agreement of the two filters; run-twice bit-identity',
+    text='(a) generated schedules whose samples all lie outside the span (or None/[]) x time steps x sensor models x modes: feedback trajectory bit-identical to Integrator.integrate; (b) unit error realisation scaled by s in {1,...,1e-3}: '
+         'disagreement with the feedforward filter in sigma units must shrink (x0.5 then x0.2 per decade + 0.1) and end below 0.2 (sigma tables 0.02); (c) both filters re-run with the same model objects are bit-identical. Exploration.',
+    note='(b) is coarse by nature: it certifies shrinking down to a floor of 0.1 sigma caused by the error model\'s documented omissions (measured, see DESIGN 4b), evaluated at speeds <= 30 m/s; it detects O(1) sigma disagreements.',
+    design='DESIGN.md section 4 and 4b, C12'),
+ 'C19': dict(
+    technique='property-based testing over a registry of public callables: deep argument snapshots, run-twice bit-identity, form agreement, schema predicates; generated call sequences with re-issued calls',
+    text='65 registry entries covering every public function/method of the ten modules (Turntable.generate_imu excluded) with arguments as writable ndarrays, lists, Series, DataFrames: no argument modified (except documented sensor-model estimates in filters), '
+         'equal inputs and integer seeds give bit-identical outputs, repeated and re-ordered calls reveal no hidden state, alternative forms agree within 4 ulp, returned tables carry the documented columns/index. Exploration.',
+    note='Registry is hand-written; the evidence lists public callables it does not cover (none at present).',
+    design='DESIGN.md section 4 and 4b, C19'),
 }
 NOT_YET = 'check not built yet in this session (planned, see DESIGN.md section 8); not claimed until its check exists'
 
